@@ -55,7 +55,21 @@ func (f *frame) execCall(v ssa.Value, cm *ssa.CallCommon, pos token.Pos, st *Sta
 	pre := st.next
 	res := f.doCall(cm, pos, st, b, v)
 	if st.next != pre {
-		f.assumeCallAllocs(st, pre, st.next, f.calleeAllocs(cm))
+		allocs := f.calleeAllocs(cm)
+		f.assumeCallAllocs(st, pre, st.next, allocs)
+		// the tag-free interval survives the call only if the callee cannot allocate arrays of a mentioned type
+		free := allocs != nil
+		for n := range f.c.g.tagTypes() {
+			if allocs[n] {
+				free = false
+			}
+		}
+		if _, isBuiltin := cm.Value.(*ssa.Builtin); isBuiltin {
+			free = true // append/make inside the executor: tagged (and the interval reset) at the allocation itself
+		}
+		if !free {
+			st.tagLo = st.next
+		}
 	}
 	if v != nil {
 		if res.Typ == nil {
@@ -280,10 +294,29 @@ func (f *frame) applyContract(callee *ssa.Function, con *Contract, args []Val, s
 		}
 	}
 	pre := st.clone()
+	// instantiation of the callee's ghost constants requested by the caller's contract (rebind)
+	rebound := map[string]string{}
+	if f.con != nil {
+		for _, rb := range f.con.Rebinds {
+			if !strings.Contains(FuncKey(callee), rb.Callee) {
+				continue
+			}
+			cenv := f.specEnv(st, nil, nil)
+			for _, li := range f.loops {
+				if li.entryNext != "" {
+					cenv.Vars[fmt.Sprintf("#loopbound%d", li.ordinal)] = SV{Term: li.entryNext, Typ: types.Typ[types.Int]}
+				}
+			}
+			rebound[rb.Ghost] = cenv.Eval(rb.Expr).Term
+		}
+	}
 	mkEnv := func(cur *State) *SpecEnv {
 		env := &SpecEnv{G: g, Pkg: callee.Pkg.Pkg, Vars: map[string]SV{}, Cur: cur, Old: pre, Next0: pre.next}
 		for i, p := range callee.Params {
 			env.Vars[p.Name()] = SV{Term: args[i].T, Typ: p.Type()}
+		}
+		for gname, gterm := range rebound {
+			env.Vars[gname] = SV{Term: gterm, Typ: types.Typ[types.Int]}
 		}
 		return env
 	}
@@ -363,7 +396,13 @@ func (f *frame) applyContract(callee *ssa.Function, con *Contract, args []Val, s
 	}
 	env2 := mkEnv(st)
 	resultEnv(env2, callee, results)
+	ignored := func(en Clause) bool {
+		return c.contract != nil && len(c.contract.IgnoreEnsures) > 0 && mentionsCall(en.Expr, c.contract.IgnoreEnsures...)
+	}
 	for _, en := range con.Ensures {
+		if ignored(en) {
+			continue
+		}
 		c.assume(st, env2.Eval(en.Expr).Term)
 	}
 	if con.Trusted {
@@ -373,6 +412,9 @@ func (f *frame) applyContract(callee *ssa.Function, con *Contract, args []Val, s
 		// only facts about recursive types need the frame rule: look for one in the assumed postconditions
 		rec := false
 		for _, en := range con.Ensures {
+			if ignored(en) {
+				continue
+			}
 			if mentionsCall(en.Expr, "deepcopy", "deepcopyAbove") && c.mentionsRecursiveDcs(env2.Eval(en.Expr).Term) {
 				rec = true
 			}
@@ -445,7 +487,13 @@ func (f *frame) appendHeaps(st *State, et types.Type, s, t string, inplace strin
 		cur := st.Heap(h)
 		nh := c.declare(h, c.g.TE.heapSort[h])
 		srcT := fmt.Sprintf("(select %s (selem %s (- (eidx r) (+ (soff %s) (slen %s)))))", cur, t, s, s)
-		inpl := fmt.Sprintf("(ite (and ((_ is elem) r) (= (earr r) (sarr %s)) (<= (+ (soff %s) (slen %s)) (eidx r)) (< (eidx r) (+ (soff %s) (slen %s) %s))) %s (select %s r))", s, s, s, s, s, n, srcT, cur)
+		// (in place the id reserved for a new array stays unused; its cells read as zero like any other spare cell)
+		zero0 := c.g.heapZero(h)
+		rest0 := fmt.Sprintf("(select %s r)", cur)
+		if zero0 != "" {
+			rest0 = fmt.Sprintf("(ite (and ((_ is elem) r) (= (earr r) %s)) %s (select %s r))", newArr, zero0, cur)
+		}
+		inpl := fmt.Sprintf("(ite (and ((_ is elem) r) (= (earr r) (sarr %s)) (<= (+ (soff %s) (slen %s)) (eidx r)) (< (eidx r) (+ (soff %s) (slen %s) %s))) %s %s)", s, s, s, s, s, n, srcT, rest0)
 		srcS := fmt.Sprintf("(select %s (selem %s (eidx r)))", cur, s)
 		srcT2 := fmt.Sprintf("(select %s (selem %s (- (eidx r) (slen %s))))", cur, t, s)
 		// a new backing array: the copied cells, the appended cells, and zero everywhere else (Go zeroes the
@@ -499,6 +547,9 @@ func (f *frame) doAppend(cm *ssa.CallCommon, pos token.Pos, st *State, name stri
 	// A consequence of the selem axiom, stated so that E-matching has the term: an append in place keeps every element
 	// location of the operand (without it, invariants triggered on elements of the old slice never fire on the new one).
 	c.assume(st, fmt.Sprintf("(forall ((i Int)) (! (=> %s (= (selem %s i) (selem %s i))) :pattern ((selem %s i))))", inplace, res, s.T, res))
+	// the cells of the result named through the operand: in place they are the operand's cells (same array and
+	// offset), otherwise cells of the new array; gives quantified facts about s[i] a term to match on r[i]
+	c.assume(st, fmt.Sprintf("(forall ((i Int)) (! (= (selem %s i) (ite %s (selem %s i) (elem %s i))) :pattern ((selem %s i))))", res, inplace, s.T, id, res))
 	return Val{T: res, Typ: slT}
 }
 
